@@ -240,7 +240,7 @@ PROPS["C07"] = {
     "modules": ["WhatIs.Props.C07"],
     "theorems": ["WhatIs.C07.no_trace", "WhatIs.C07.first_success", "WhatIs.C07.result_origin", "WhatIs.C07.no_inner_star",
                  "WhatIs.C07.signature_rows_first", "WhatIs.C07.text_sniffers_before_asn1", "WhatIs.C07.name_rows", "WhatIs.C07.magics_prefix_free",
-                 "WhatIs.C07.reserved_exact", "WhatIs.C07.earlier_rows_silent"],
+                 "WhatIs.C07.reserved_exact", "WhatIs.C07.earlier_rows_silent", "WhatIs.C07.armor_roundtrip", "WhatIs.C07.armor_bad_checksum_rejected"],
     "facts": {"filetypes.rows": 16, "filetypes.patternWithInnerStar": False},
     "nontrivial": nt_c07,
     "gen_timeout": 3000,
@@ -255,7 +255,7 @@ PROPS["C07"] = {
                   "without name patterns or sniffers, their signatures are prefix-free (PEM only a prefix of the earlier PGP rows), so no "
                   "earlier row can match content carrying a signature whatever the file is called; the two reserved names match exact base "
                   "names only; MatchesName cannot panic. 'PGP armor never reported as PEM' needs the PEM parser itself and is decided by "
-                  "the oracle on the implementation (exploration), not by a theorem.",
+                  "the oracle on the implementation (exploration), not by a theorem. The OpenPGP armor reader (armor.Decode, lineReader, CRC-24) is modelled and proved against an RFC 4880 6.2 writer: the armored text of ANY body (any type, line width 1..96, LF/CRLF, with or without checksum, anything after it) decodes to exactly that body, and a wrong checksum makes it unreadable (armor_roundtrip, armor_bad_checksum_rejected); tied by the armor operation (3,500 / 34,000 texts incl. every truncation, substitutions around markers, over-long lines, header variants; text with padding before the last quantum is outside the model and skipped).",
     "level_note": "Trusted: Lean kernel; translator (table incl. constants resolved from jks-go and ssh1); parsers and sniffers are oracle "
                   "parameters recorded by the harness from the exported functions; filepath.Base model.",
     "technique": "Lean 4 proof (induction over the candidate list; decide over the regenerated filetypes table) + differential correspondence with recorded parser oracles",
